@@ -26,8 +26,8 @@ PLANS = {
                 quick=[("close", 300, ""), ("lag", 100, ""), ("ovfstall", 1, "mode=close"), ("readfault", 30, ""), ("recerr", 20, "")],
                 thorough=[("close", 5000, ""), ("lag", 1500, ""), ("ovfstall", 12, ""), ("readfault", 400, ""), ("recerr", 300, "")]),
     "C08": dict(engine=INO, mc=["MC_Events"],
-                quick=[("spell", 240, ""), ("burst", 24, "ks=17+240+700"), ("rand", 150, ""), ("repoint", 80, ""), ("rootwatch", 8, ""), ("tlcev", 367, "k=3"), ("tlcev", 300, "k=4"), ("tlcevlag", 400, "k=3"), ("tlcevlag", 300, "k=4")],
-                thorough=[("spell", 4000, ""), ("burst", 300, "ks=17+240+2049"), ("rand", 3000, ""), ("repoint", 1000, ""), ("rootwatch", 60, ""), ("tlcev", 3000, "k=4"), ("tlcev", 8000, "k=5"), ("tlcevlag", 1500, "k=3"), ("tlcevlag", 8000, "k=4")]),
+                quick=[("spell", 240, ""), ("burst", 24, "ks=17+240+700"), ("rand", 150, ""), ("repoint", 80, ""), ("rootwatch", 8, ""), ("recurse", 100, ""), ("cwd", 20, ""), ("tlcev", 367, "k=3"), ("tlcev", 300, "k=4"), ("tlcevlag", 400, "k=3"), ("tlcevlag", 300, "k=4")],
+                thorough=[("spell", 4000, ""), ("burst", 300, "ks=17+240+2049"), ("rand", 3000, ""), ("repoint", 1000, ""), ("rootwatch", 60, ""), ("recurse", 1500, ""), ("cwd", 300, ""), ("tlcev", 3000, "k=4"), ("tlcev", 8000, "k=5"), ("tlcevlag", 1500, "k=3"), ("tlcevlag", 8000, "k=4")]),
     "C09": dict(engine=INO, mc=["MC_WatchSet", "MC_WatchSet_ops", "MC_Events", "MC_Events_held"],
                 quick=[("lag", 200, ""), ("endwatch", 200, ""), ("rand", 150, ""), ("wsrand", 100, ""), ("repoint", 80, ""), ("tlcwslag", 334, "k=3"), ("tlcwslag", 300, "k=4"), ("wlpark", 40, ""), ("dselfskip", 30, ""), ("heldparent", 40, ""), ("reops", 80, ""), ("tlcevheld", 300, "k=4"), ("tlcevheldlag", 300, "k=4")],
                 thorough=[("lag", 4000, ""), ("endwatch", 4000, ""), ("rand", 3000, ""), ("wsrand", 2000, ""), ("repoint", 1000, ""), ("tlcwslag", 12000, "k=4"), ("wlpark", 400, ""), ("dselfskip", 300, ""), ("heldparent", 600, ""), ("reops", 1200, ""), ("tlcevheld", 1453, "k=4"), ("tlcevheld", 6000, "k=5"), ("tlcevheldlag", 7911, "k=4"), ("ovfend", 3, "")]),
@@ -35,8 +35,8 @@ PLANS = {
                 quick=[("lag", 200, ""), ("rand", 100, ""), ("overflow", 1, "extra=6"), ("ovflate", 2, ""), ("ovfstall", 1, ""), ("readfault", 30, ""), ("recurse", 100, ""), ("recerr", 30, "")],
                 thorough=[("lag", 5000, ""), ("rand", 3000, ""), ("overflow", 3, "extra=1+6+4000"), ("ovflate", 12, ""), ("ovfstall", 6, ""), ("readfault", 600, ""), ("recurse", 2000, ""), ("recerr", 400, "")]),
     "C11": dict(engine=INO, mc=["MC_Events"],
-                quick=[("moves", 300, ""), ("parmoves", 60, ""), ("multix", 20, ""), ("slowpair", 8, ""), ("tlcev", 367, "k=3"), ("tlcev", 300, "k=4"), ("tlcevlag", 400, "k=3"), ("tlcevlag", 300, "k=4")],
-                thorough=[("moves", 8000, ""), ("moves", 1000, "depth=80"), ("parmoves", 1500, ""), ("multix", 300, ""), ("slowpair", 48, ""), ("slowpair", 16, "ms=11000"), ("tlcev", 3000, "k=4"), ("tlcev", 8000, "k=5"), ("tlcevlag", 1500, "k=3"), ("tlcevlag", 8000, "k=4")]),
+                quick=[("moves", 300, ""), ("parmoves", 60, ""), ("multix", 20, ""), ("slowpair", 8, ""), ("cwd", 40, ""), ("tlcev", 367, "k=3"), ("tlcev", 300, "k=4"), ("tlcevlag", 400, "k=3"), ("tlcevlag", 300, "k=4")],
+                thorough=[("moves", 8000, ""), ("moves", 1000, "depth=80"), ("parmoves", 1500, ""), ("multix", 300, ""), ("slowpair", 48, ""), ("slowpair", 16, "ms=11000"), ("cwd", 400, ""), ("tlcev", 3000, "k=4"), ("tlcev", 8000, "k=5"), ("tlcevlag", 1500, "k=3"), ("tlcevlag", 8000, "k=4")]),
     "C12": dict(engine=INO, mc=["MC_WatchSet"], also_longadd=True,
                 quick=[("wsexh", 700, "k=3"), ("cycle", 6, "n=150"), ("wsrand", 150, ""), ("repoint", 60, ""), ("endwatch", 80, ""), ("tlcws", 600, "k=3"), ("tlcwslag", 334, "k=3"), ("tlcwslag", 300, "k=4"), ("recurse", 150, ""), ("tlcreclag", 400, "k=4"), ("ovfend", 1, "")],
                 thorough=[("wsexh", 2744, "k=3"), ("wsexh", 12000, "k=4"), ("cycle", 50, "n=1000"), ("wsrand", 5000, ""), ("repoint", 600, ""), ("endwatch", 2000, ""), ("recurse", 2000, ""), ("tlcreclag", 7000, "k=4"), ("tlcwslag", 12000, "k=4"), ("ovfend", 4, "")]),
@@ -44,8 +44,8 @@ PLANS = {
                 quick=[("close", 200, ""), ("newclose", 3, "n=300"), ("lag", 60, ""), ("ovfstall", 1, "mode=close"), ("readfault", 40, "")],
                 thorough=[("close", 5000, ""), ("newclose", 10, "n=1000"), ("lag", 1500, ""), ("readfault", 600, ""), ("ovfstall", 6, "mode=close")]),
     "C14": dict(engine=INO, mc=["MC_Events"],
-                quick=[("multi", 100, ""), ("multix", 60, ""), ("absorb", 40, ""), ("capsweep", 24, "")],
-                thorough=[("multi", 2000, ""), ("multix", 1500, ""), ("absorb", 400, ""), ("capsweep", 400, "")]),
+                quick=[("multi", 100, ""), ("multix", 60, ""), ("absorb", 40, ""), ("capsweep", 24, ""), ("ovflate", 2, "")],
+                thorough=[("multi", 2000, ""), ("multix", 1500, ""), ("absorb", 400, ""), ("capsweep", 400, ""), ("ovflate", 8, "")]),
 }
 
 PLANS["C19"] = dict(engine=INO, mc=["MC_Recurse"],
